@@ -95,8 +95,6 @@ Print Assumptions c09_ds_expired_never_returned.
        ConnectedAddrTTL (pstoreds keeps expiries as unix seconds);
      - every TTL given to AddAddrs / SetAddrs / UpdateAddrs(new) / ConsumePeerRecord is <= 0, or whole
        seconds, or >= ConnectedAddrTTL;
-     - an AddAddrs / SetAddrs / ConsumePeerRecord batch with a positive TTL names no transport address
-       twice (setAddrs appends one entry per occurrence of a new address);
      - sequence numbers are >= 0 (uint64);
    and the lookahead interval is >= 0.
    Observational sense (trace_refines_ds): every answer EQUALS the abstract book's (ConsumePeerRecord
@@ -141,24 +139,33 @@ Theorem c09_ds_ok_implies_clock_ok : forall now ops, ds_ok now ops = true -> clo
 Proof. exact ds_ok_clock. Qed.
 Print Assumptions c09_ds_ok_implies_clock_ok.
 
-(* each clause of the hypothesis is needed: a sub-second TTL (pstoreds rounds the expiry down and answers
-   [] where the abstract book answers [1]); a batch naming a new address twice (pstoreds stores and
-   returns it twice, and the monitor rejects the GC count); a negative lookahead interval (expired
-   entries stay in the datastore).  And the PeersWithAddrs slack is real: after the same history
-   pstoremem still lists the expired peer, pstoreds does not *)
+(* the hypothesis is needed: a sub-second TTL (pstoreds rounds the expiry down and answers [] where the
+   abstract book answers [1]); a negative lookahead interval (expired entries stay in the datastore).
+   And the PeersWithAddrs slack is real: after the same history pstoremem still lists the expired peer,
+   pstoreds does not *)
 Theorem c09_ds_hypotheses_needed :
   ds_ok 0 wit_subsecond = false /\
   map snd (a_trace a_init wit_subsecond) = [ONone; ONone; OList [1]] /\
   map snd (d_trace (d_init false 0) wit_subsecond) = [ONone; ONone; OList []] /\
-  ds_ok 0 wit_dup_batch = false /\
-  map snd (a_trace a_init wit_dup_batch) = [ONone; OList [1]; OSizes 1 0 0] /\
-  map snd (d_trace (d_init false 0) wit_dup_batch) = [ONone; OList [1; 1]; OSizes 2 0 0] /\
-  holds (d_trace (d_init false 0) wit_dup_batch) = false /\
   ds_ok 0 wit_peers_slack = true /\
   map snd (m_trace m_init wit_peers_slack) = [ONone; ONone; OList []; OList [1]] /\
   map snd (d_trace (d_init false 0) wit_peers_slack) = [ONone; ONone; OList []; OList []].
 Proof. exact ds_hypotheses_needed_l. Qed.
 Print Assumptions c09_ds_hypotheses_needed.
+
+(* the defect the refinement proof uncovered (a batch naming a NEW address twice, plainly or once with
+   /p2p/<self>, was stored and returned twice by pstoreds; /repo 78d0362) is absent: such batches satisfy
+   the hypothesis, and on them every configuration of the pstoreds model and the pstoremem model answer
+   exactly as the abstract book (one entry per address, GC count included) *)
+Theorem c09_dup_batch_repaired :
+  ds_ok 0 wit_dup_batch = true /\
+  map snd (a_trace a_init wit_dup_batch) = [ONone; OList [1]; ONone; OList [2]; OVal 1; OList [1; 3]; OSizes 3 1 0] /\
+  forallb (fun c => list_eqb (fun x y => obs_conform x y) (map snd (d_trace c wit_dup_batch))
+                             (map snd (a_trace a_init wit_dup_batch))) ds_cfgs = true /\
+  list_eqb (fun x y => obs_conform (norm_obs x) (norm_obs y)) (map snd (m_trace m_init wit_dup_batch))
+           (map snd (a_trace a_init wit_dup_batch)) = true.
+Proof. exact ds_dup_batch_l. Qed.
+Print Assumptions c09_dup_batch_repaired.
 
 Theorem c09_ds_lookahead_nonnegative_needed :
   ds_ok 0 wit_neg_look = true /\
